@@ -32,7 +32,94 @@ impl Drop for Payload {
             user_yield();
         }
         DROPPED.fetch_add(1, Ordering::SeqCst);
+        if let Some(log) = DROP_LOG.lock().unwrap().as_mut() {
+            log.push(self.0);
+        }
     }
+}
+
+/// `R` cases: which payloads were dropped (= which trees were torn down), in order
+static DROP_LOG: Mutex<Option<Vec<u32>>> = Mutex::new(None);
+
+/// `R <n> | <ops>`: n trees, each with a payload on its root and one handle in register t; operations on the handle
+/// registers: `c<r>` clone, `k<r>` a handle to another node of the same tree, `d<r>` drop, `f<a>:<b>` clone_from,
+/// `s<a>:<b>` mem::swap.  Output: per operation the trees torn down by it; then the same for dropping all
+/// remaining handles in register order; then the bytes still allocated.
+pub fn run_r(args: &[&str]) -> String {
+    let before = crate::live_bytes();
+    let out = run_r_inner(args);
+    let leak = crate::live_bytes() - before - out.capacity() as isize;
+    out.replace("leak=?", &format!("leak={leak}"))
+}
+
+fn run_r_inner(args: &[&str]) -> String {
+    let n: usize = args[0].parse().unwrap();
+    let ops = &args[2..];
+    let events = ["S1", "S2", "T5:97", "F", "T5:98", "F"];
+    let mut regs: Vec<Option<Node>> = Vec::new();
+    for t in 0..n {
+        let mut cache = NodeCache::new();
+        let Ok(green) = run_ops(&mut cache, &parse_ops(events.iter().copied()), None).1 else { return "BUILD-PANIC".into() };
+        let root: Node = SyntaxNode::new_root(green);
+        root.set_data(Payload::new(t as u32));
+        regs.push(Some(root));
+    }
+    *DROP_LOG.lock().unwrap() = Some(Vec::new());
+    let torn = || -> String {
+        let l: Vec<u32> = std::mem::take(DROP_LOG.lock().unwrap().as_mut().unwrap());
+        if l.is_empty() { "-".into() } else { l.iter().map(|t| format!("t{t}")).collect::<Vec<_>>().join("+") }
+    };
+    let mut out = Vec::new();
+    for op in ops {
+        let (c, rest) = op.split_at(1);
+        let idx: Vec<usize> = rest.split(':').map(|x| x.parse().unwrap()).collect();
+        match c {
+            "c" => {
+                let h = regs.get(idx[0]).cloned().flatten();
+                regs.push(h);
+            }
+            "k" => {
+                let h = regs.get(idx[0]).and_then(|x| x.as_ref()).map(|n| n.first_child().or(n.parent()).expect("another node of the tree").clone());
+                regs.push(h);
+            }
+            "d" => {
+                if let Some(r) = regs.get_mut(idx[0]) {
+                    *r = None;
+                }
+            }
+            "f" => {
+                let (a, b) = (idx[0], idx[1]);
+                if a != b && a < regs.len() && b < regs.len() {
+                    // two distinct registers: borrow both
+                    let (lo, hi) = regs.split_at_mut(a.max(b));
+                    let (dst, src) = if a < b { (&mut lo[a], &hi[0]) } else { (&mut hi[0], &lo[b]) };
+                    if let (Some(dst), Some(src)) = (dst.as_mut(), src.as_ref()) {
+                        dst.clone_from(src);
+                    }
+                } else if a == b && a < regs.len() {
+                    let src = regs[a].clone();
+                    if let (Some(dst), Some(src)) = (regs[a].as_mut(), src.as_ref()) {
+                        dst.clone_from(src);
+                    }
+                }
+            }
+            "s" => {
+                if idx[0] < regs.len() && idx[1] < regs.len() {
+                    regs.swap(idx[0], idx[1]);
+                }
+            }
+            _ => return format!("BAD-OP {op}"),
+        }
+        out.push(torn());
+    }
+    let mut fin = Vec::new();
+    for r in regs.iter_mut() {
+        *r = None;
+        fin.push(torn());
+    }
+    drop(regs);
+    *DROP_LOG.lock().unwrap() = None;
+    format!("RH {} || {} || leak=?", out.join(" "), fin.join(" "))
 }
 
 /// `U` cases: the destructor of a payload yields to the scheduler (a user destructor may take arbitrarily long)
